@@ -108,6 +108,7 @@ type interpreter struct {
 	persist      map[string]value
 	inSetup      bool
 	stdout       []value // captured writes to os.Stdout (CLI harness)
+	stderr       []value
 	initPfx      []string
 	countPfx     []string
 	auxCount     int
